@@ -15,7 +15,7 @@ def plan(tier, seed):
         for sh in range(8):
             specs.append({'part': 'exhaustive', 'maxlen': 4, 'mod': 8, 'rem': sh})
         for sh in range(4):
-            specs.append({'part': 'random', 'n': 400, 'shard': sh})
+            specs.append({'part': 'random', 'n': 2000, 'shard': sh})
     else:
         for sh in range(32):
             specs.append({'part': 'exhaustive', 'maxlen': 6, 'mod': 32, 'rem': sh, 'timeout': 3500})
